@@ -3,7 +3,10 @@
 REPO=${STBEM_REPO:-/repo}
 OUT=$(mktemp -d /var/tmp/stbem-baseline.XXXXXX)
 trap 'rm -rf "$OUT"' EXIT
-cd "$REPO" && env -u STBEM_VERIF PYTHONDONTWRITEBYTECODE=1 /venv/bin/python -m pytest -ra -q -p no:cacheprovider --timeout=900 --continue-on-collection-errors --junitxml="$OUT/j.xml" >"$OUT/log" 2>&1
+# a mutant may make a test spin or allocate without bound: cap time and address space
+ulimit -v 12000000
+cd "$REPO" && env -u STBEM_VERIF PYTHONDONTWRITEBYTECODE=1 timeout -k 5 ${BASELINE_TIMEOUT:-420} /venv/bin/python -m pytest -ra -q -p no:cacheprovider --timeout=900 --continue-on-collection-errors --junitxml="$OUT/j.xml" >"$OUT/log" 2>&1
+[ -s "$OUT/j.xml" ] || { echo "baseline did not finish (timeout / memory cap)"; exit 1; }
 /venv/bin/python - "$OUT/j.xml" <<'PY'
 import sys, json, xml.etree.ElementTree as ET
 base = json.load(open('/root/.vp/BASELINE.json'))['stable_pass']
